@@ -316,6 +316,16 @@ def w_align(ctx, rng, i):
         align.judge_family(ctx, t, src, tgt2 if isinstance(tgt2, np.ndarray) else np.asarray(tgt2), opts, "after_pseudoinverse")
         # the inverse is itself an alignment (from the old target to the old source): its own queries are consistent
         judge_common(ctx, inv, np.asarray(tgt2, dtype=float), src, "inverse")
+        if rng.random() < 0.5:
+            # ... and a working one: retargeted, it is the fit of *its* source (the old target) to the new target
+            isrc = np.asarray(inv.source.points, dtype=float).copy()
+            L4, tr4 = family_member(rng, kind, d, opts)
+            tgt4 = isrc @ L4.T + tr4 + (rng.normal(scale=noise, size=isrc.shape) if noise else 0)
+            with taps.quiet():
+                inv.set_target(ms.PointCloud(tgt4.copy()))
+            ctx.tap("inverse_alignment_retargeted", "calls"); ctx.tap("inverse_alignment_retargeted", "checked")
+            judge_common(ctx, inv, isrc, tgt4, "inverse_retargeted")
+            align.judge_family(ctx, inv, isrc, tgt4, opts, "inverse_retargeted")
     ctx.count_case((kind, d, str(sorted(opts.items())), noise, mirrored_target, 0 if n < 6 else 1 if n < 15 else 2), nontrivial=True,
                    sample={"kind": kind, "dims": d, "options": opts, "noise": noise, "n_points": n, "mirrored_target": mirrored_target} if i < 8 else None)
 
